@@ -143,9 +143,10 @@ fn genreplay(p: &'static Property, seed: u64, runs: u64) -> (u64, Vec<u64>) {
     let mut bad = vec![];
     for run in 0..runs {
         let sc = &p.scenarios[table[(run % table.len() as u64) as usize]];
-        let a = execute(p, sc, Choices::generate(run_seed(seed, p, sc, run)), false);
-        let b = execute(p, sc, Choices::replay(a.choices.clone()), false);
-        let c = execute(p, sc, Choices::generate(run_seed(seed, p, sc, run)), true);
+        // same thread on purpose: this compares the simulator with itself, it needs no isolation
+        let a = execute_here(p, sc, Choices::generate(run_seed(seed, p, sc, run)), false);
+        let b = execute_here(p, sc, Choices::replay(a.choices.clone()), false);
+        let c = execute_here(p, sc, Choices::generate(run_seed(seed, p, sc, run)), true);
         if digest(&a) != digest(&b) || digest(&a) != digest(&c) {
             bad.push(run);
         }
@@ -278,10 +279,62 @@ fn cmd_run(a: &Args) -> Result<i32, String> {
         let sc = &p.scenarios[*sci];
         debug_assert_eq!(table[(*run % table.len() as u64) as usize], *sci);
         let first = execute(p, sc, Choices::generate(run_seed(a.seed, p, sc, *run)), false);
-        let orig_len = first.choices.len();
-        let first_events = first.events;
-        let m = minimise(p, sc, first.choices, clause, first_events);
-        let mut file = replay_file_json(p, sc, a.seed, *run, &m.choices, &m.violation, orig_len, m.execs);
+        let alone = matches!(&first.verdict, Err(v) if v.clause == *clause);
+        let (m, mut file) = if alone {
+            let orig_len = first.choices.len();
+            let first_events = first.events;
+            let m = minimise(p, sc, first.choices, clause, first_events);
+            let file = replay_file_json(p, sc, a.seed, *run, &m.choices, &m.violation, orig_len, m.execs);
+            (m, file)
+        } else {
+            // The run does not fail on its own in a fresh thread: the code under test carries state
+            // from earlier runs of the same block (thread-local scratch space, a cache). Replay the
+            // block prefix in one fresh thread and shrink it to the runs that are needed.
+            let block_start = a.from + ((*run - a.from) / BLOCK) * BLOCK;
+            let fails_after = |prelude: &[u64]| -> Option<Violation> {
+                let o = execute_after(p, sc, Choices::generate(run_seed(a.seed, p, sc, *run)), false, a.seed, prelude);
+                match o.verdict {
+                    Err(v) if v.clause == *clause => Some(v),
+                    _ => None,
+                }
+            };
+            let mut prelude: Vec<u64> = (block_start..*run).collect();
+            let (prelude, violation) = match fails_after(&prelude) {
+                Some(mut v) => {
+                    let mut i = 0;
+                    while i < prelude.len() {
+                        let mut cand = prelude.clone();
+                        cand.remove(i);
+                        if let Some(v2) = fails_after(&cand) {
+                            prelude = cand;
+                            v = v2;
+                        } else {
+                            i += 1;
+                        }
+                    }
+                    v.message = format!(
+                        "{} [fails only after run(s) {:?} have been executed on the same thread: the code under test carries state from one independent use to the next]",
+                        v.message, prelude
+                    );
+                    (prelude, v)
+                }
+                None => (
+                    vec![],
+                    Violation {
+                        clause: clause.clone(),
+                        message: format!(
+                            "clause violated in {} run(s) of the batch (first: run {}), but neither the run alone nor the preceding runs of its block reproduce it in a fresh thread: the code under test carries state across independent uses that the simulator cannot isolate (process-global?)",
+                            count, run
+                        ),
+                    },
+                ),
+            };
+            let file = json!({
+                "property": p.id, "scenario": sc.name, "clause": clause, "seed": a.seed, "run": run,
+                "choices": Value::Null, "prelude_runs": prelude, "message": violation.message,
+            });
+            (Minimised { choices: vec![], violation, execs: 0 }, file)
+        };
         file["tier"] = json!(tier);
         let dir = format!("{}/{}", replay_dir, p.id);
         std::fs::create_dir_all(&dir).map_err(|e| format!("{}: {}", dir, e))?;
